@@ -1,6 +1,6 @@
 (* C04 driver.  input  = (fixed nreq nuniq (node ...))
-     node = (T short shortf orgf tg tl base basef (uniq...) (req...)) | (G node ...)
-   output = (alltags taglevel dups duration whole codes)
+     node = (T short shortf orgf tg tl base basef (uniq...) (req...) def) | (G node ...)
+   output = (alltags taglevel dups duration whole codes onset)
      alltags, duration : (kind ...) ; taglevel, dups, whole : (ok kind ...) | (exn Name)
      codes : published code ids of [whole] through the translated table, or (exn Name) *)
 let exn_sx (e : exn) : sx = A (match e with
@@ -14,7 +14,11 @@ let kind_sx (k : kind) : sx = A (match k with
   | K_MULTIPLE_TOP_TAGS -> "MULTIPLE_TOP_TAGS" | K_TAG_REPEATED -> "TAG_REPEATED"
   | K_TAG_REPEATED_GROUP -> "TAG_REPEATED_GROUP" | K_TAG_NOT_UNIQUE -> "TAG_NOT_UNIQUE"
   | K_REQUIRED_TAG_MISSING -> "REQUIRED_TAG_MISSING" | K_DURATION_HAS_OTHER_TAGS -> "DURATION_HAS_OTHER_TAGS"
-  | K_DURATION_WRONG_NUMBER_GROUPS -> "DURATION_WRONG_NUMBER_GROUPS")
+  | K_DURATION_WRONG_NUMBER_GROUPS -> "DURATION_WRONG_NUMBER_GROUPS"
+  | K_ONSET_NO_DEF_TAG_FOUND -> "ONSET_NO_DEF_TAG_FOUND" | K_ONSET_TOO_MANY_DEFS -> "ONSET_TOO_MANY_DEFS"
+  | K_ONSET_WRONG_NUMBER_GROUPS -> "ONSET_WRONG_NUMBER_GROUPS"
+  | K_ONSET_TAG_OUTSIDE_OF_GROUP -> "ONSET_TAG_OUTSIDE_OF_GROUP" | K_ONSET_DEF_UNMATCHED -> "ONSET_DEF_UNMATCHED"
+  | K_ONSET_PLACEHOLDER_WRONG -> "ONSET_PLACEHOLDER_WRONG")
 
 let kinds_sx l = L (List.map kind_sx l)
 let res_sx (r : kind list res) : sx = match r with
@@ -22,10 +26,10 @@ let res_sx (r : kind list res) : sx = match r with
   | Exn e -> L [A "exn"; exn_sx e]
 
 let rec tree_of (x : sx) : tree = match x with
-  | L (A "T" :: [sh; shf; orgf; tg; tl; b; bf; u; r]) ->
+  | L (A "T" :: [sh; shf; orgf; tg; tl; b; bf; u; r; df]) ->
     T { t_short = sx_str sh; t_shortf = sx_str shf; t_orgf = sx_str orgf;
         t_tg = sx_bool tg; t_tl = sx_bool tl; t_base = sx_nat b; t_basef = sx_nat bf;
-        t_uniq = List.map sx_nat (sx_list u); t_req = List.map sx_nat (sx_list r) }
+        t_uniq = List.map sx_nat (sx_list u); t_req = List.map sx_nat (sx_list r); t_def = sx_nat df }
   | L (A "G" :: ch) -> G (List.map tree_of ch)
   | _ -> failwith "tree_of"
 
@@ -42,5 +46,5 @@ let () = main_loop (fun x ->
       | Exn e -> L [A "exn"; exn_sx e] in
     L [kinds_sx (all_tags_issues nr nu top); res_sx (tag_level_issues top);
        res_sx (check_for_duplicate_groups m top); kinds_sx (validate_duration_tags top);
-       res_sx whole; codes]
+       res_sx whole; codes; kinds_sx (validate_onset_offset top)]
   | _ -> failwith "bad input")
